@@ -457,6 +457,13 @@ def gen_refuse(rng, tree):
     leaves = [p for p, v in poss if p and not isinstance(v, (dict, list))]
     dicts = [p for p, v in poss if isinstance(v, dict)]
     r = rng.random()
+    if lists and r < 0.12:
+        # a fresh NAME directly below a list (no element addressed): there is no place for it, whatever the length of the
+        # list is - in particular a list of exactly one record must not take it into that record
+        named = [p for p in lists if p and all(not (isinstance(e, dict) and "zq" in e) for e in X.get_at(tree, p))]
+        if named:
+            p = rng.choice(named)
+            return X.render_rel(tree, p) + rng.choice(["/zq", "/zq/y", "/zq[0]"])
     if lists and r < 0.35:
         p = rng.choice(lists)
         n = len(X.get_at(tree, p))
